@@ -44,6 +44,7 @@ KINDS = [
     ("altloc-pair-B-first", lambda i: [_atom("ATOM", 100 + i, f"HD2{i}", "LEU", "A", 5, _x(i, 7), alt="B"), _atom("ATOM", 200 + i, f"HD2{i}", "LEU", "A", 5, _x(i, 7) + 0.5, alt="A")]),
     ("altloc-pair-alias-name", lambda i: [_atom("ATOM", 100 + i, "CD", "ILE", "A", 6, _x(i, 20), alt="A"), _atom("ATOM", 200 + i, "CD", "ILE", "A", 6, _x(i, 20) + 0.5, alt="B")] if i == 0 else [_atom("ATOM", 100 + i, ["", "HN", "1HB", "2HB", "3HB", "HN2"][i], "ILE", "A", 6, _x(i, 20), alt="A"), _atom("ATOM", 200 + i, ["", "HN", "1HB", "2HB", "3HB", "HN2"][i], "ILE", "A", 6, _x(i, 20) + 0.5, alt="B")]),
     ("hetatm-water", lambda i: [_atom("HETATM", 100 + i, "O", "HOH", "A", 30 + i, _x(i, 8))]),
+    ("hetatm-water-blank-chain", lambda i: [_atom("HETATM", 100 + i, "O", "HOH", " ", 35 + i, _x(i, 24))]),
     ("water-in-atom-record", lambda i: [_atom("ATOM", 100 + i, "O", ["HOH", "WAT"][i % 2], "A", 45 + i, _x(i, 21))]),
     ("hetatm-water-serial-10000", lambda i: [_atom("HETATM", 10000 + i, "O", "HOH", "A", 40 + i, _x(i, 9))]),
     ("atom-serial-100000", lambda i: [_atom("ATOM", 99999, "CA", "ALA", "A", 70 + i, _x(i, 19)).replace("ATOM  99999", "ATOM 100000")]),
@@ -62,7 +63,7 @@ KINDS = [
     ("CONECT", lambda i: ["CONECT  413  412  414"]),
 ]
 KIND_NAMES = [k for k, _ in KINDS]
-QUICK_KINDS = ["atom-line-damaged", "water-in-atom-record", "atom-new-residue", "atom-same-residue", "atom-insertion-code", "altloc-pair-B-first", "altloc-pair-alias-name", "hetatm-water", "hetatm-water-serial-10000", "hetatm-ligand", "atom-cut-after-z", "TER", "END", "blank-line", "unknown-record"]
+QUICK_KINDS = ["hetatm-water-blank-chain", "atom-line-damaged", "water-in-atom-record", "atom-new-residue", "atom-same-residue", "atom-insertion-code", "altloc-pair-B-first", "altloc-pair-alias-name", "hetatm-water", "hetatm-water-serial-10000", "hetatm-ligand", "atom-cut-after-z", "TER", "END", "blank-line", "unknown-record"]
 
 PREFIX = ["HEADER    TEST", _atom("ATOM", 1, "N", "GLY", "A", 1, 1.5), _atom("ATOM", 2, "CA", "GLY", "A", 1, 2.5)]
 SUFFIX = [_atom("ATOM", 900, "CA", "ALA", "A", 99, 900.5), _atom("HETATM", 901, "O", "HOH", "A", 98, 901.5), "TER", "END"]
@@ -112,6 +113,10 @@ def h_records(eng, nlines, kinds, models, drop, first=None):
     noend = [ln for ln in body if ln not in ("END",)]
     if models in (True, "two-models"):
         lines = ["MODEL        1"] + noend + ["ENDMDL"] + MODEL2 + ["END"]
+    elif models in ("two-models-from-0", "two-models-same-number", "two-models-from-5"):
+        # the serial written on a MODEL record is a label: ensembles numbered from 0, sub-ensembles, concatenated files
+        first, second = {"two-models-from-0": (0, 1), "two-models-same-number": (1, 1), "two-models-from-5": (5, 6)}[models]
+        lines = [f"MODEL     {first:4d}"] + noend + ["ENDMDL"] + [f"MODEL     {second:4d}"] + MODEL2[1:] + ["END"]
     elif models == "one-model-noend":
         lines = ["MODEL        1"] + noend + ["ENDMDL"]
     elif models == "plain-noend":
@@ -291,7 +296,12 @@ def obligations(tier):
                         continue
                     obs.append(Obligation(f"line-{rec}-{'+'.join(focus)}-n{name_len}-{tail}", h_line, dict(rec=rec, focus=focus, name_len=name_len, tail=tail), group="line", time_cap=1200))
     obs += _drop_name_obligations()
+    obs += _model_label_obligations(tier)
     return obs
+
+
+def _model_label_obligations(tier):
+    return [Obligation(f"records-n{n}-{m}-drop{int(d)}", h_records, dict(nlines=n, kinds=QUICK_KINDS, models=m, drop=d), group="records", time_cap=1500, max_paths=100000) for n in ((1,) if tier == "quick" else (1, 2)) for m in ("two-models-from-0", "two-models-same-number", "two-models-from-5") for d in (False, True)]
 
 
 def _drop_name_obligations():
